@@ -42,6 +42,7 @@ class Cfg:
     mc_fixed: int = 0  # 0: symbolic
     # fixed shapes instead of every shape on N nodes: each shape lists the indices of the dependencies of node i
     fixed_shapes: Tuple[Tuple[Tuple[int, ...], ...], ...] = ()
+    setup_call: bool = False  # every node is a setup node and the operation is DAG.setup(<selection>) instead of a call
     distinct_cp: bool = False  # assume pairwise distinct compound priorities; the C06 monitor is then strict
     debug_leaf: bool = False  # one leaf may be a debug node, RUN_DEBUG_NODES on; the executed set is read off the executor's graph
     monitors: Tuple[str, ...] = ("C02", "C03", "C04", "C05", "C08", "C09", "C14", "C17", "C01")
@@ -344,6 +345,7 @@ def run_sched(cfg: Cfg, c: Ctx) -> Any:
         if k:
             j, i = pairs[k - 1]
             act[labels[i]] = labels[j] if j >= 0 else "IN"
+            c.assume(not (cfg.setup_call and j < 0))  # (a setup node cannot depend on a DAG argument)
             act_indexed = bool(c.choose(2, "act_indexed"))  # twz_active=flag[0] instead of twz_active=flag
     alldeps = {l: list(dict.fromkeys(deps[l] + ([act[l]] if l in act and act[l] != "IN" else []))) for l in labels}
     # ---- attributes
@@ -392,6 +394,8 @@ def run_sched(cfg: Cfg, c: Ctx) -> Any:
         k = c.choose(1 + 3 * N, "sel")
         if k:
             sel = (("target", "exclude", "root")[(k - 1) // N], labels[(k - 1) % N])
+            # DAG.setup() targets every setup node unless told otherwise, so an exclusion alone is refused by the library
+            c.assume(not (cfg.setup_call and sel[0] == "exclude"))
     succ_count = {l: 0 for l in labels}
     # descendants in the full DAG (dependency edges incl. activation)
     desc: Dict[str, Set[str]] = {l: set() for l in labels}
@@ -403,6 +407,8 @@ def run_sched(cfg: Cfg, c: Ctx) -> Any:
         # roots of the id graph: nodes without any dependency, here every node takes the DAG input or a
         # constant - only dependency-free user nodes that take no argument at all are roots
         c.assume(not alldeps[sel[1]] and sel[1] not in act and sel[1] != wrapped)  # type: ignore[index]
+        # (DAG.setup(root_nodes=...) still targets every setup node: all of them must lie below the root)
+        c.assume(not cfg.setup_call or desc[sel[1]] | {sel[1]} == set(labels))  # type: ignore[index]
     exec_set = closure_spec(labels, alldeps, sel)
     dbg: Optional[str] = None
     if cfg.debug_leaf:
@@ -444,9 +450,9 @@ def run_sched(cfg: Cfg, c: Ctx) -> Any:
         return fn
 
     # a node that takes the DAG input is neither a root of the id graph nor reachable by the debug rule
-    root_takes_input = sel[0] != "root" and dbg is None
+    root_takes_input = sel[0] != "root" and dbg is None and not cfg.setup_call
     xns = {l: xn(make_fn(l), priority=prio0[l], is_sequential=seq0[l], resource=Resource(res[l]), debug=(l == dbg),
-                 tag=("g", "t_" + l)) for l in labels}
+                 tag=("g", "t_" + l), setup=cfg.setup_call) for l in labels}
     callers: Dict[str, Any] = dict(xns)
     if wrapped is not None:
         # the node lives in a DAG of its own that the outer describing function calls
@@ -458,7 +464,7 @@ def run_sched(cfg: Cfg, c: Ctx) -> Any:
             3: lambda a, b, c_: inner_xn(a, b, c_),
             4: lambda a, b, c_, d_: inner_xn(a, b, c_, d_),
         }
-        arity = (1 if (sel[0] != "root" and dbg is None) else 0) + len(deps[wrapped])
+        arity = (1 if (sel[0] != "root" and dbg is None and not cfg.setup_call) else 0) + len(deps[wrapped])
         sub_fn = subs[arity]
         if wrapped in act and c.choose(2, "inner_flag"):
             # the flag enters the nested DAG as an argument and is applied (indexed or not) to the node inside it
@@ -531,7 +537,13 @@ def run_sched(cfg: Cfg, c: Ctx) -> Any:
     saved_run_debug = twz_cfg.RUN_DEBUG_NODES
     twz_cfg.RUN_DEBUG_NODES = dbg is not None
     try:
-        call = pipe if sel[0] == "whole" else pipe.executor(**{sel[0] + "_nodes": [ids[sel[1]]]})
+        if cfg.setup_call:
+            selkw = {} if sel[0] == "whole" else {sel[0] + "_nodes": [ids[sel[1]]]}
+
+            def call(_x: Any) -> Any:
+                return pipe.setup(**selkw)
+        else:
+            call = pipe if sel[0] == "whole" else pipe.executor(**{sel[0] + "_nodes": [ids[sel[1]]]})
     finally:
         twz_cfg.RUN_DEBUG_NODES = saved_run_debug
     if dbg is not None:
@@ -627,7 +639,11 @@ def run_sched(cfg: Cfg, c: Ctx) -> Any:
                 "call returned although selected active nodes %s never ran" % sorted(expected_run - set(mon.started)))
         mon.chk("C03", set(mon.started) == expected_run and len(mon.started) == len(set(mon.started)),
                 "set of executed nodes %s differs from the selected active set %s" % (mon.started, sorted(expected_run)))
-        if not mon.failed:
+        if cfg.setup_call:
+            stored = tuple(pipe.results.get(ids[l]) if l in expected_run else None for l in labels)
+            mon.chk("C02", veq(stored, want), "setup results stored by DAG.setup differ from the plain-Python evaluation", {"got": stored, "want": want})
+            c.cover("w_setup_call")
+        elif not mon.failed:
             mon.chk("C01", veq(outcome[1], want), "returned value differs from the plain-Python evaluation",
                     {"got": outcome[1], "want": want})
         c.cover("w_returned")
